@@ -31,12 +31,19 @@ K2 = ["b", "d"]
 CONFIGS = [("DISABLED", False), ("TASK", False), ("ARGUMENTS", False), ("KEYS", False), ("KEYS", True)]
 NOPS = 9  # 0..7 submit(k1,k2,other) ; 8 claim oldest REGISTERED
 
+def canon(args):
+    """identity of argument values as the call identity sees them: 1, True and 1.0 are three different values"""
+    return tuple((type(a).__name__, a) for a in args)
+
 def keyfn(mode, args):
     if mode == "TASK":
         return ()
     if mode == "ARGUMENTS":
-        return args
-    return (args[0], args[1])
+        return canon(args)
+    return canon((args[0], args[1]))
+
+# values of the non-key argument that are equal for Python's == but differ as call arguments (and one that is simply different)
+OV = [0, False, 0.0, 1, True, 1.0, "1"]
 
 def submit(task, args, spelling):
     k1, k2, other = args
@@ -44,7 +51,7 @@ def submit(task, args, spelling):
         return task(k1, k2, other)
     if spelling == 1:
         return task(other=other, k2=k2, k1=k1)
-    if other == 0:
+    if type(other) is int and other == 0:
         return task(k1, k2)
     return task(k1, k2=k2, other=other)
 
@@ -59,7 +66,7 @@ def world(kind, mode, raise_flag):
     warm_task(task)
     return app, task
 
-def run_hist(kind, cfg, mask, ops):
+def run_hist(kind, cfg, mask, ops, values=False):
     global LAST_DETAIL
     mode, raise_flag = CONFIGS[cfg]
     app, task = world(kind, mode, raise_flag)
@@ -69,8 +76,12 @@ def run_hist(kind, cfg, mask, ops):
     created = []      # invocation ids in creation order
     seq = [(i >> 1, i & 1, 0) for i in range(4) if (mask >> i) & 1]   # pre-state submissions (other = 0)
     seq = [("submit", (K1[a], K2[b], o)) for (a, b, o) in seq]
+    if values:
+        seq = []          # value family: same key arguments throughout, the non-key argument ranges over OV; op 7 = claim
     for op in ops:
-        if op < 8:
+        if values:
+            seq.append(("submit", (K1[0], K2[0], OV[op])) if op < 7 else ("claim", None))
+        elif op < 8:
             seq.append(("submit", (K1[(op >> 2) & 1], K2[(op >> 1) & 1], op & 1)))
         else:
             seq.append(("claim", None))
@@ -95,7 +106,7 @@ def run_hist(kind, cfg, mask, ops):
                 key = keyfn(mode, args)
                 if key in model:
                     ex_id, ex_args = model[key]
-                    if mode == "KEYS" and raise_flag and ex_args != args:
+                    if mode == "KEYS" and raise_flag and canon(ex_args) != canon(args):
                         if got != ("raise",) or orch.count_invocations() != before_total:
                             LAST_DETAIL = log; return False
                     else:
@@ -126,6 +137,17 @@ def both(cfg, mask, ops):
     ops = [pick(o, 0, NOPS - 1) for o in ops]
     with NoTracing():
         return run_hist("mem", cfg, mask, ops) and run_hist("sqlite", cfg, mask, ops)
+'''
+
+V3 = r'''
+def values_c__C__(o1: int, o2: int, o3: int) -> bool:
+    """
+    pre: 0 <= o1 <= 7 and 0 <= o2 <= 7 and 0 <= o3 <= 7
+    post: _
+    """
+    o1 = pick(o1, 0, 7); o2 = pick(o2, 0, 7); o3 = pick(o3, 0, 7)
+    with NoTracing():
+        return run_hist("mem", __C__, 0, [o1, o2, o3], True) and run_hist("sqlite", __C__, 0, [o1, o2, o3], True)
 '''
 
 H2 = r'''
@@ -180,6 +202,9 @@ def run(ctx: Ctx) -> None:
         for k in range(9):
             src += tmpl.replace("__C__", str(c)).replace("__K__", str(k))
             conds.append(Cond(f"{name}_c{c}_o{k}", "confirm", 3000 if thorough else 600))
+    for c in range(5):
+        src += V3.replace("__C__", str(c))
+        conds.append(Cond(f"values_c{c}", "confirm", 900))
     src += EXTRA
     conds += [Cond("twin", "refute", 60), Cond("canary_wrong_key", "refute", 300)]
     res = ctx.ch_batch("c07", src, conds)
@@ -192,6 +217,7 @@ def run(ctx: Ctx) -> None:
     ctx.bounds = {
         "history": f"symbolic subset of 4 key combinations submitted first + {3 if thorough else 2} free ops over 9 letters "
                    "(submit k1 in {a,x} x k2 in {b,d} x other in {0,1}; claim oldest REGISTERED)",
+        "values": "3 ops over: submit(a, b, other) with other in {0, False, 0.0, 1, True, 1.0, '1'} (equal for ==, different call arguments) / claim; every mode",
         "modes": "DISABLED, TASK, ARGUMENTS, KEYS(k1,k2) with and without on_diff_non_key_args_raise",
         "spellings": "positional / keyword (reordered) / default omitted, rotating with the submission index",
         "backends": "in-memory and SQLite, same history, both against the dictionary model",
